@@ -8,6 +8,7 @@ export PYTHONPATH=/verif
 mkdir -p .cache evidence replays
 cp -f /repo/Cargo.lock native/Cargo.lock
 cargo build --offline --manifest-path native/Cargo.toml --target-dir .cache/native-target >/dev/null 2>.cache/setup-native.log || { tail -20 .cache/setup-native.log; exit 1; }
+RUSTFLAGS='--cfg pricelevel_verif' cargo build --offline --manifest-path native/Cargo.toml --target-dir .cache/native-target-hooks >/dev/null 2>.cache/setup-native-hooks.log || { tail -20 .cache/setup-native-hooks.log; exit 1; }
 python3-vt -c "from emir import mir; c=mir.load('/repo'); print('MIR dump', c.info)" || exit 1
 cp -f /repo/Cargo.lock kani/Cargo.lock
 (cd kani && timeout 900 cargo kani --only-codegen --target-dir /verif/.cache/kani-target >/verif/.cache/setup-kani.log 2>&1 || true)
